@@ -67,7 +67,8 @@ def spec_exp(ip, xabs, c, emin, emax, mode):
   lg = I.LOG2(xf)
   if mode == "rnd":
     r = RND(lg)
-    ip.assume(z3.And(z3.ToReal(r) - lg <= z3.RealVal("1/2"), lg - z3.ToReal(r) <= z3.RealVal("1/2")))
+    from pyvc import lib as L
+    ip.assume(L.rnd_axiom_formula(lg))
   else:
     r = I.FLR(lg)
     ip.assume(z3.And(z3.ToReal(r) <= lg, lg < z3.ToReal(r) + 1))
